@@ -447,6 +447,7 @@ def run(pid, tier, seed, replay=None):
              "defining equation TLC checked", programs=len(sessions),
         programs_by_kind={k: sum(1 for m in metas.values() if m["algo"] == k) for k in {m["algo"] for m in metas.values()}},
         negative_control=control, exhaustive=False)
+    dsl_gen.cleanup()       # the generated program files (temp dirs) are not needed any more
     common.write_evidence(pid, tier, seed, coverage, time.time() - t0, len(violations),
                           ["the engine runs natively over GF(p^2): no abstraction step",
                            "uniqueness of the solution of the defining equations (well-founded programs) is the argument "
